@@ -84,7 +84,7 @@ func pickSome(r *rand.Rand, u []uint64, max int) []uint64 {
 var (
 	mutUnary = []string{"add", "add", "remove", "checkedadd", "clear"}
 	binary   = []string{"or", "and", "andnot", "xor"}
-	reads    = []string{"contains", "card", "slice", "each", "clone"}
+	reads    = []string{"contains", "card", "slice", "each", "clone", "eachstop", "snapwalk"}
 )
 
 func gen(r *rand.Rand) WL {
@@ -278,6 +278,9 @@ func apply(s set, i in) outp {
 		o.N = uint64(len(s))
 	case "slice", "each", "clone":
 		o.S = s.sorted()
+	case "eachstop":
+		// the delegate asks to stop after V[0]%7+1 values: it must be called exactly min(limit, |S|) times
+		o.N = min(uint64(i.V[0]%7+1), uint64(len(s)))
 	case "or":
 		for k := range op {
 			s[k] = struct{}{}
@@ -406,6 +409,19 @@ func doOp[T uint32 | uint64](p cardinality.Duplex[T], o Op, operand cardinality.
 		var got []T
 		p.Each(func(v T) bool { got = append(got, v); return true })
 		r.S = sortedU64(got)
+	case "eachstop":
+		limit := int(o.V[0]%7 + 1)
+		seen := map[T]bool{}
+		calls := 0
+		p.Each(func(v T) bool {
+			calls++
+			if seen[v] {
+				*cloneBad = fmt.Sprintf("Each handed %d to its delegate twice", v)
+			}
+			seen[v] = true
+			return calls < limit
+		})
+		r.N = uint64(calls)
 	case "clone":
 		c := p.Clone()
 		r.S = sortedU64(c.Slice())
@@ -497,6 +513,41 @@ func run[T uint32 | uint64](t *testing.T, w WL, cfg simrt.Config) simh.Outcome {
 						} else {
 							i.Operand = mkset(w.Provs[op.Q].values()).sorted() // frozen
 						}
+					}
+					if op.K == "snapwalk" {
+						// iterate a snapshot while editing the original: snap := p.Clone(); snap.Each(func(v){ p.Remove/Contains(v) }).
+						// Recorded as a clone read followed by the individual operations on p.
+						call := s.Seq()
+						snap := provs[op.P].Clone()
+						content := sortedU64(snap.Slice())
+						ret := s.Seq()
+						ci0 := in{P: op.P, K: "clone", Init: w.Provs[op.P].values()}
+						hist[ci] = append(hist[ci], porcupine.Operation{ClientId: ci, Input: ci0, Output: outp{S: content}, Call: int64(call), Return: int64(ret)})
+						mutate := w.Provs[op.P].Owner == ci || (w.Provs[op.P].Owner == -1 && !w.Provs[op.P].Frozen)
+						n := 0
+						snap.Each(func(v T) bool {
+							n++
+							sub := in{P: op.P, K: "contains", V: []uint64{uint64(v)}, Init: w.Provs[op.P].values()}
+							if mutate && n%2 == 1 {
+								sub.K = "remove"
+							}
+							c2 := s.Seq()
+							var so outp
+							if sub.K == "remove" {
+								provs[op.P].Remove(v)
+							} else {
+								so.B = provs[op.P].Contains(v)
+							}
+							r2 := s.Seq()
+							lastSeq = r2
+							if m, ok := own[op.P]; ok {
+								apply(m, sub)
+							}
+							hist[ci] = append(hist[ci], porcupine.Operation{ClientId: ci, Input: sub, Output: so, Call: int64(c2), Return: int64(r2)})
+							return n < 6
+						})
+						counters["snapwalk_ops"]++
+						continue
 					}
 					call := s.Seq()
 					o := doOp(provs[op.P], op, operand, &cloneBad)
